@@ -81,7 +81,8 @@ class World:
                 pos = self.mk('A', parent)
             line += ' ' + pos.slot
         elif kind == 'P':
-            line += ' ' + r.choice(['Int32', 'Double', 'String', 'Bool', 'Int64', 'UInt32', 'UInt64'])
+            dt = r.choice(['Int32', 'Double', 'String', 'Bool', 'Int64', 'UInt32', 'UInt64'])
+            line += ' ' + dt
         elif kind == 'R':
             da = extra or self.pick('A', block=block)
             if da is None:
